@@ -4,9 +4,9 @@ PROP = {
     "units": [],  # header-only: datastruct/ring.h, datastruct/ring_counter.h, container/{ring,cyclic_buffer,unbounded_array}.h
     "targets": [
         {"name": "ring_enum", "mode": "enum"},
-        {"name": "c_ring", "quick": 300000, "thorough": 5000000, "maxlen": 640},
-        {"name": "cxx_ring", "quick": 300000, "thorough": 5000000, "maxlen": 640},
-        {"name": "cyclic", "quick": 100000, "thorough": 1500000, "maxlen": 400},
+        {"name": "c_ring", "quick": 1000000, "thorough": 15000000, "maxlen": 640},
+        {"name": "cxx_ring", "quick": 1000000, "thorough": 15000000, "maxlen": 640},
+        {"name": "cyclic", "quick": 500000, "thorough": 8000000, "maxlen": 400},
     ],
     "fuzz": [{"name": "c_ring", "secs": 45, "maxlen": 640}, {"name": "cxx_ring", "secs": 45, "maxlen": 640}],
 }
